@@ -16,7 +16,19 @@ Line-protocol handler for C18.  Core-only.
     param  m L lo H hi TOL t T.. B.. W.. X n (id x y)*
            → `resid=ok` (weighted-mean residual ≤ tol: validation of the iterative solver) and
              `uv=ok` (`uvValid` in exact arithmetic on the float outputs)
-    atlas  RES r T n (6 rationals)*  → `uv=ok` iff `uvValid 0 1`
+    hist   L lo H hi TOL t T.. B.. K k (S mode W.. BA n (id x y)* X n (id x y)*)*
+           → `ok` iff after EVERY solve of the history (all over the one boundary map `B`): the
+             boundary map `BA` still equals `B` (size and values), the solution equals `B` on the
+             boundary, the weighted-mean residual for THIS solve's weights is ≤ tol, and `uvValid`
+    atlas  RES r M n U u C k (indices) T k (6 rationals)*
+           → `cover=ok` iff the UV map has exactly the mesh's triangles as keys (each once: `u = n`,
+             the covered indices are `0..n-1`), `uv=ok` iff `uvValid 0 1`
+    near   T Q p N n (6 rationals)*  → `findUV`: index + barycentric coordinates (faithful model of
+             `newTri2dLookup`/`Find`, exact) or `nil`
+    near   M|N Q p N n (6 + 9 rationals)* R idx q
+           → `ok` iff triangle `idx` is at the smallest distance from `p` over ALL triangles (linear
+             scan; distance 0 = contains `p`) and `q` is the 3-D interpolation of its point closest to
+             `p`; exact for `M`, with 1e-9 relative slack on squared distances and 1e-7 on `q` for `N`
     pack   B b R .. N k (A area M m (6 rationals)*)*  → the packed UVs (exact) or `panic`
     circle P p N n (len x y)*        → `ok` iff the real CircleBoundary/PNormBoundary placement is within 1e-12 of
            the arc-length model `runSums`/`arcParams` (cos/sin/pow from libm: validation only)
@@ -207,6 +219,34 @@ partial def parseX (ws : Toks) (acc : Array (V2 Rat)) : Option (Array (V2 Rat)) 
     if i < acc.size then parseX r (acc.set! i ⟨x, y⟩) else none
   | _ => none
 
+/-- residual of the weighted-mean equation at every vertex without a position in `s.bpos`
+(`none`: a weight is missing or the weights of a vertex sum to 0) -/
+def residOf (s : Setup) (px : Nat → V2 Rat) : Option Rat :=
+  let interior := (verts s.ts).filter fun v => (s.bp v).isNone
+  interior.foldl (fun acc c =>
+    match acc, nbList s.ts s.bp s.wt c with
+    | some m, some nbs =>
+      let lx := nbs.map fun nb => match nb with
+        | .var j w => (w, (px j).x)
+        | .fixed p w => (w, p.x)
+      let ly := nbs.map fun nb => match nb with
+        | .var j w => (w, (px j).y)
+        | .fixed p w => (w, p.y)
+      if wtot lx == 0 then none else
+      let ex := absR ((px c).x - weightedMean lx)
+      let ey := absR ((px c).y - weightedMean ly)
+      some (max m (max ex ey))
+    | _, _ => none) (some 0)
+
+/-- boundary vertices keep their prescribed positions -/
+def bfixOf (s : Setup) (px : Nat → V2 Rat) : Bool :=
+  (verts s.ts).all fun v => match s.bp v with
+    | some p => px v == p
+    | none => true
+
+def uvOf (s : Setup) (lo hi : Rat) (px : Nat → V2 Rat) : Bool :=
+  uvValid lo hi (s.ts.map fun t => (⟨px t.1, px t.2.1, px t.2.2⟩ : Tri2 Rat))
+
 def handleParam (ws : Toks) : Option String := do
   match ws with
   | mode :: "L" :: lo :: "H" :: hi :: "TOL" :: tol :: rest =>
@@ -222,34 +262,69 @@ def handleParam (ws : Toks) : Option String := do
         if xs.length ≠ 3 * k then none else
         let pos ← parseX xs (Array.replicate s.nv ⟨0, 0⟩)
         let px := fun (v : Nat) => (pos[v]?).getD ⟨0, 0⟩
-        -- residual of the weighted-mean equation at every interior vertex
-        let interior := (verts s.ts).filter fun v => (s.bp v).isNone
-        let resid : Option Rat := interior.foldl (fun acc c =>
-          match acc, nbList s.ts s.bp s.wt c with
-          | some m, some nbs =>
-            let lx := nbs.map fun nb => match nb with
-              | .var j w => (w, (px j).x)
-              | .fixed p w => (w, p.x)
-            let ly := nbs.map fun nb => match nb with
-              | .var j w => (w, (px j).y)
-              | .fixed p w => (w, p.y)
-            if wtot lx == 0 then none else
-            let ex := absR ((px c).x - weightedMean lx)
-            let ey := absR ((px c).y - weightedMean ly)
-            some (max m (max ex ey))
-          | _, _ => none) (some 0)
+        let resid := residOf s px
         let residOK := match resid with
           | some m => decide (m ≤ tol)
           | none => false
-        -- boundary vertices keep their prescribed positions
-        let bfix := (verts s.ts).all fun v => match s.bp v with
-          | some p => px v == p
-          | none => true
-        let uvs := s.ts.map fun t => (⟨px t.1, px t.2.1, px t.2.2⟩ : Tri2 Rat)
-        let uvOK := uvValid lo hi uvs
         let rs := if mode == "stretch" then "resid=ok" else
-          (if residOK && bfix then "resid=ok" else s!"resid=FAIL:{match resid with | some m => showRat m | none => "none"}")
-        some (rs ++ " " ++ (if uvOK then "uv=ok" else "uv=FAIL"))
+          (if residOK && bfixOf s px then "resid=ok" else s!"resid=FAIL:{match resid with | some m => showRat m | none => "none"}")
+        some (rs ++ " " ++ (if uvOf s lo hi px then "uv=ok" else "uv=FAIL"))
+    | _ => none
+  | _ => none
+
+/-! ### hist: several solves over ONE boundary map -/
+
+partial def histSteps (ts : List Tri) (nv : Nat) (b0 : Array (Option (V2 Rat))) (nb0 : Nat) (lo hi tol : Rat)
+    (i : Nat) (ws : Toks) (acc : List String) : Option (List String) :=
+  match ws with
+  | [] => some acc
+  | "S" :: _mode :: "X" :: st :: _ => some (acc ++ [s!"s{i}:status={st}"])
+  | "S" :: _mode :: rest => do
+    let (w, r) ← takeN "W" rest 3
+    let w ← parseW nv w {}
+    match r with
+    | "BA" :: nba :: r1 =>
+      let nba ← nba.toNat?
+      if r1.length < 3 * nba then none else
+      let ba ← parseB (r1.take (3 * nba)) (Array.replicate (nv + 1) none)
+      match r1.drop (3 * nba) with
+      | "X" :: n :: xs =>
+        match n.toNat? with
+        | none => some (acc ++ [s!"s{i}:status={n}"])
+        | some k =>
+          if xs.length < 3 * k then none else
+          let pos ← parseX (xs.take (3 * k)) (Array.replicate nv ⟨0, 0⟩)
+          let px := fun (v : Nat) => (pos[v]?).getD ⟨0, 0⟩
+          let s : Setup := { ts := ts, bpos := b0, w := w, nv := nv }
+          let bsame := nba == nb0 && (List.range (nv + 1)).all fun v => (ba[v]?).join == (b0[v]?).join
+          let residS := match residOf s px with
+            | some m => if decide (m ≤ tol) then "" else s!"s{i}:interior-vertex-not-at-weighted-mean(resid={showRat m})"
+            | none => s!"s{i}:weights-missing"
+          let fails :=
+            (if bsame then [] else [s!"s{i}:boundary-map-changed(size {nb0}->{nba})"]) ++
+            (if bfixOf s px then [] else [s!"s{i}:solution-differs-from-boundary-map-on-boundary"]) ++
+            (if residS == "" then [] else [residS]) ++
+            (if uvOf s lo hi px then [] else [s!"s{i}:uv-invalid"])
+          histSteps ts nv b0 nb0 lo hi tol (i + 1) (xs.drop (3 * k)) (acc ++ fails)
+      | _ => none
+    | _ => none
+  | _ => none
+
+def handleHist (ws : Toks) : Option String := do
+  match ws with
+  | "L" :: lo :: "H" :: hi :: "TOL" :: tol :: rest =>
+    let lo ← parseRat lo
+    let hi ← parseRat hi
+    let tol ← parseRat tol
+    let (ts, r) ← takeSoup "T" rest
+    let nv := (vertsAll ts).foldl max 0 + 1
+    let (b, r) ← takeN "B" r 3
+    let nb0 := b.length / 3
+    let b0 ← parseB b (Array.replicate (nv + 1) none)
+    match r with
+    | "K" :: _ :: steps =>
+      let fails ← histSteps ts nv b0 nb0 lo hi tol 1 steps []
+      some (if fails.isEmpty then "ok" else "FAIL " ++ " ".intercalate fails)
     | _ => none
   | _ => none
 
@@ -267,13 +342,23 @@ partial def parseTri2s (ws : Toks) (acc : Array (Tri2 Rat)) : Option (Array (Tri
 
 def handleAtlas (ws : Toks) : Option String := do
   match ws with
-  | "RES" :: _ :: "T" :: n :: rest =>
-    match n.toNat? with
-    | none => some ("uv=FAIL:" ++ n)
-    | some k =>
-      if rest.length ≠ 6 * k then none else
-      let ts ← parseTri2s rest #[]
-      some (if uvValid (0 : Rat) 1 ts.toList then "uv=ok" else "uv=FAIL")
+  | "RES" :: _ :: "M" :: n :: "U" :: u :: "C" :: k :: rest =>
+    let n ← n.toNat?
+    let u ← u.toNat?
+    let k ← k.toNat?
+    if rest.length < k then none else
+    let cov ← (rest.take k).mapM (·.toNat?)
+    -- every mesh triangle is a key of the UV map exactly once, and there is no other key
+    let coverOK := u == n && k == n && cov == List.range n
+    match rest.drop k with
+    | "T" :: k2 :: uvs =>
+      let k2 ← k2.toNat?
+      if uvs.length ≠ 6 * k2 then none else
+      let ts ← parseTri2s uvs #[]
+      some ((if coverOK then "cover=ok" else s!"cover=FAIL:{k}-of-{n}-triangles-have-UVs,{u}-keys") ++ " " ++
+        (if uvValid (0 : Rat) 1 ts.toList then "uv=ok" else "uv=FAIL"))
+    | _ => none
+  | "RES" :: _ :: "M" :: [status] => some s!"cover=FAIL:{status} uv=FAIL:{status}"
   | _ => none
 
 structure Chart where
@@ -352,6 +437,69 @@ def handleMapFn (ws : Toks) : Option String := do
   | [_, status] => some ("FAIL status=" ++ status)
   | _ => none
 
+/-! ### near: `MapFn` for queries outside every UV triangle -/
+
+partial def parseNear (with3d : Bool) : Nat → Toks → Array (Tri2 Rat × Tri3 Rat) → Option (Array (Tri2 Rat × Tri3 Rat) × Toks)
+  | 0, ws, acc => some (acc, ws)
+  | k + 1, ws, acc => do
+    let per := if with3d then 15 else 6
+    if ws.length < per then none else
+    let v ← (ws.take per).mapM parseRat
+    let g := fun (i : Nat) => v.getD i 0
+    let u : Tri2 Rat := ⟨⟨g 0, g 1⟩, ⟨g 2, g 3⟩, ⟨g 4, g 5⟩⟩
+    let t : Tri3 Rat := if with3d then ⟨⟨g 6, g 7, g 8⟩, ⟨g 9, g 10, g 11⟩, ⟨g 12, g 13, g 14⟩⟩ else ⟨⟨0, 0, 0⟩, ⟨0, 0, 0⟩, ⟨0, 0, 0⟩⟩
+    parseNear with3d k (ws.drop per) (acc.push (u, t))
+
+/-- distance key of a triangle: 0 when it contains `p` (all barycentric coordinates ≥ −slack), else
+the squared distance of its closest boundary point -/
+def nearKey (slack : Rat) (u : Tri2 Rat) (p : V2 Rat) : Rat :=
+  let w := bary2 u p
+  if u.orient != 0 && decide (-slack ≤ w.1) && decide (-slack ≤ w.2.1) && decide (-slack ≤ w.2.2) then 0
+  else (triNearest u p).1
+
+def handleNear (ws : Toks) : Option String := do
+  match ws with
+  | "T" :: "Q" :: px :: py :: "N" :: n :: rest =>
+    let p : V2 Rat := ⟨← parseRat px, ← parseRat py⟩
+    let n ← n.toNat?
+    let (ts, _) ← parseNear false n rest #[]
+    match findUV (ts.toList.map (·.1)) p with
+    | none => some "nil"
+    | some (i, w) => some s!"{i} {showRat w.1} {showRat w.2.1} {showRat w.2.2}"
+  | mode :: "Q" :: px :: py :: "N" :: n :: rest =>
+    let p : V2 Rat := ⟨← parseRat px, ← parseRat py⟩
+    let n ← n.toNat?
+    let (ts, r) ← parseNear true n rest #[]
+    match r with
+    | ["R", idx, qx, qy, qz] =>
+      let idx ← idx.toNat?
+      let q : V3 Rat := ⟨← parseRat qx, ← parseRat qy, ← parseRat qz⟩
+      let exact := mode == "M"
+      let slack : Rat := if exact then 0 else (1 : Rat) / 1000000000
+      let eps : Rat := if exact then 0 else (1 : Rat) / 10000000
+      match ts[idx]? with
+      | none => some "FAIL returned-triangle-not-in-the-map"
+      | some (u, t) =>
+        let keys := ts.toList.map fun ut => nearKey 0 ut.1 p
+        let best := keys.foldl min (nearKey 0 u p)
+        let mine := nearKey slack u p
+        let nearest := decide (mine ≤ best * (1 + slack) + slack * slack)
+        -- the 3-D point: interpolation at the barycentric coordinates of p (inside) or of the
+        -- closest boundary point (outside)
+        let scale : Rat := 1 + absR q.x + absR q.y + absR q.z
+        let close := fun (a b : V3 Rat) =>
+          decide (absR (a.x - b.x) ≤ eps * scale) && decide (absR (a.y - b.y) ≤ eps * scale) && decide (absR (a.z - b.z) ≤ eps * scale)
+        let wIn := bary2 u p
+        let inside := u.orient != 0 && decide (-slack ≤ wIn.1) && decide (-slack ≤ wIn.2.1) && decide (-slack ≤ wIn.2.2)
+        let okIn := inside && close q (atBary3 t wIn)
+        let okOut := (!inside || !exact) && close q (atBary3 t (triNearest u p).2)
+        some (verdict [
+          (s!"a-nearer-triangle-exists(returned-dist2={showRat mine},smallest={showRat best})", nearest),
+          ("point-is-not-the-interpolation-of-the-nearest-uv-point", okIn || okOut)])
+    | ["R", status] => some ("FAIL status=" ++ status)
+    | _ => none
+  | _ => none
+
 /-! ### circle (libm: validation only) -/
 
 partial def parseTriples (ws : Toks) (acc : Array (Float × Float × Float)) : Option (Array (Float × Float × Float)) :=
@@ -400,6 +548,8 @@ def handleAll (ws : List String) : Option String :=
   | "pack" :: r => handlePack r
   | "mapfn" :: r => handleMapFn r
   | "circle" :: r => handleCircle r
+  | "hist" :: r => handleHist r
+  | "near" :: r => handleNear r
   | _ => none
 
 end M3d.Drv.C18
